@@ -1,6 +1,7 @@
 package refactor
 
 import (
+	"slices"
 	"strings"
 
 	"github.com/nyaruka/goflow/excellent"
@@ -9,9 +10,22 @@ import (
 // ContextRefRename returns a transformation function that renames context references
 func ContextRefRename(from, to string) func(excellent.Expression) bool {
 	return func(exp excellent.Expression) bool {
+		// references inside an anonymous function which has a parameter with this name refer to that
+		// parameter rather than the context
+		shadowed := make(map[*excellent.ContextReference]bool)
+		exp.Visit(func(e excellent.Expression) {
+			if fn, ok := e.(*excellent.AnonFunction); ok && slices.ContainsFunc(fn.Args, func(a string) bool { return strings.EqualFold(a, from) }) {
+				fn.Body.Visit(func(b excellent.Expression) {
+					if ref, ok := b.(*excellent.ContextReference); ok {
+						shadowed[ref] = true
+					}
+				})
+			}
+		})
+
 		changed := false
 		exp.Visit(func(e excellent.Expression) {
-			if ref, ok := e.(*excellent.ContextReference); ok && strings.EqualFold(ref.Name, from) {
+			if ref, ok := e.(*excellent.ContextReference); ok && !shadowed[ref] && strings.EqualFold(ref.Name, from) {
 				ref.Name = to
 				changed = true
 			}
